@@ -32,6 +32,7 @@ def run(ctx: Ctx) -> int:
     ctx.outside_claim = ["terminal width / colours", "MietteRenderer (needs the miette-py extension module)", "spans that start or end inside leading white space (no AST node does)",
                          "texts longer than 4 characters for the symbolic-string conditions"]
     ctx.assumptions = ["spans start on and end after a non-blank character, as spans of AST nodes do"]
+    jobs.append(Job(H, "h_reregistered", timeout=ctx.pick(60, 200), name="h_reregistered[file name registered twice]"))
     ctx.crosshair(jobs)
     return ctx.finish(
         level="model_checking",
